@@ -77,6 +77,22 @@ Theorem launched_persisted_invariant : forall (ops : list op) (w : world),
 Proof. exact run_persisted. Qed.
 Print Assumptions launched_persisted_invariant.
 
+(* Nothing else takes the finalizers off: over every op of the transition system (environment events, reconciles
+   of other nodes, the other controller, any fault), a Node's termination finalizer disappears only in a reconcile
+   of that node that issued the removal, and the NodeClaim's only in a lifecycle reconcile that issued it — to
+   which the theorems above apply. *)
+Theorem node_finalizer_only_by_reconcile : forall (w : world) (o : op) (i : Z),
+  node_has_fin i w = true -> node_has_fin i (fst (step w o)) = false ->
+  exists f, o = RNode i f /\ In (ERmNodeFin i true) (fst (snd (step w o))).
+Proof. exact node_finalizer_only_by_reconcile_l. Qed.
+Print Assumptions node_finalizer_only_by_reconcile.
+
+Theorem claim_finalizer_only_by_reconcile : forall (w : world) (o : op),
+  claim_has_fin w = true -> claim_has_fin (fst (step w o)) = false ->
+  exists f, o = RClaim f /\ In (ERmClaimFin true) (fst (snd (step w o))).
+Proof. exact claim_finalizer_only_by_reconcile_l. Qed.
+Print Assumptions claim_finalizer_only_by_reconcile.
+
 (* The boolean oracles evaluated on the implementation's observations are the specification. *)
 Theorem node_oracle_spec : forall w0 w i, node_fin_ok_b w0 w i = true <-> node_fin_ok w0 w i.
 Proof. exact node_fin_ok_b_spec. Qed.
